@@ -36,7 +36,7 @@ class Ctx:
 def build_module(ctx, kids, flav):
     """Module number len(ctx.mods): ports vss, d[2], q, bundle ports bp, bq; one instance (or array) per entry of `kids`.
     `flav` bits: 1 = first child is an InstanceArray of 2; 2 = rotate the bundle-connection styles; 4 = wide array data;
-    8 = an only child leaves its bq / q ports unconnected (NoConn)."""
+    8 = an only child leaves its bq / q ports unconnected (NoConn); 16 = no primitive instances (a leaf is then a true leaf)."""
     B = ctx.Bnd
     mid = len(ctx.mods)
     m = h.Module(name=f"M{mid}")
@@ -47,10 +47,11 @@ def build_module(ctx, kids, flav):
     m.bq = B(port=True)
     m.bi = B()
     m.sx = h.Signal()
-    m.r0 = h.R(r=1000)(p=m.bp.x, n=m.q)
-    m.r1 = h.R(r=1000)(p=m.bq.sub.z, n=m.vss)
-    m.r2 = h.R(r=1000)(p=m.d[0], n=m.bi.x)
-    m.r3 = h.R(r=1000)(p=m.sx, n=m.bi.sub.z)
+    if not flav & 16:
+        m.r0 = h.R(r=1000)(p=m.bp.x, n=m.q)
+        m.r1 = h.R(r=1000)(p=m.bq.sub.z, n=m.vss)
+        m.r2 = h.R(r=1000)(p=m.d[0], n=m.bi.x)
+        m.r3 = h.R(r=1000)(p=m.sx, n=m.bi.sub.z)
     rot = 1 if flav & 2 else 0
     n = len(kids)
     for j, c in enumerate(kids):
